@@ -26,3 +26,9 @@ func init() {
 		})
 	})
 }
+
+func init() {
+	register("SENT", "debug: sentinel-producible over all packages", nil, func(r *Report) {
+		ruleSentinelProducible(r, "simpledb", "sstables", "memstore", "pq", "skiplist", "recordio", "recordio/proto", "wal", "wal/proto")
+	})
+}
